@@ -81,7 +81,8 @@ PROP = dict(
     assumptions=[
         "coordinates are finite f64 whose binary32 image is finite (not NaN) ; weights are non-negative i64 (or integer-valued f64) whose sum does not overflow",
         "rayon fold/reduce call the closures on a split tree of the index range; join runs both closures",
-        "termination of the cut search: fuel bound proved from the rank hypotheses of Section SearchFuel (partial: not discharged for SpecFloat; the runs never met OutOfFuel)",
+        "C03_search_terminates_partial / C03_rcb_total_partial: termination and totality are proved from a bounded order embedding `rank` of the representable values (closed under the midpoint) into Z -- hypotheses of Section Total, satisfiable and true of binary32 but NOT discharged for SpecFloat; the runs use fuel 2000 and never met OutOfFuel",
+        "the C03 theorems require the binary32 image of every coordinate not to be NaN (true of every finite f64; checked per case by the run glue)",
     ],
 )
 
